@@ -36,6 +36,11 @@ def insertBy {α} (lt : α → α → Bool) (x : α) : List α → List α
 
 def sortBy {α} (lt : α → α → Bool) (l : List α) : List α := l.foldl (fun acc x => insertBy lt x acc) []
 
+/-- ordered selections of `w` distinct elements -/
+def selections (l : List Nat) : Nat → List (List Nat)
+  | 0 => [[]]
+  | w + 1 => l.flatMap fun x => (selections (l.filter (· != x)) w).map (x :: ·)
+
 def b01 (b : Bool) : String := if b then "1" else "0"
 
 def outDigest (o : Outgoing) : String :=
@@ -170,6 +175,8 @@ def monitor (g : Ghost) (w : List String) (head : String) (rets : List (Nat × S
   let stateErr := head.startsWith "E:state"
   let limitErr := head == "E:limit"
   let mut needSB : Option STyp := none
+  -- a frame opened new incoming streams of this type while acceptors were blocked
+  let mut opened : Option (STyp × List Nat) := none
   match w with
   | ["open", t] =>
     match parseT t with
@@ -235,6 +242,7 @@ def monitor (g : Ghost) (w : List String) (head : String) (rets : List (Nat × S
           if head != "ok" then
             fails := fails ++ [("limit_enforced", "-", s!"{kind} for stream {id} within the advertised limit {x.advMax} answered {head}")]
           else
+            if id > x.inHighest && !x.accWaiting.isEmpty && !g.closed then opened := some (t, x.accWaiting)
             g := g.setTG t { x with inHighest := max x.inHighest id }
     else if kind == "del" then
       let id := intOf id
@@ -267,6 +275,12 @@ def monitor (g : Ghost) (w : List String) (head : String) (rets : List (Nat × S
   | ["close"] => g := { g with closed := true }
   | ["usereset"] => g := { g with reset := false }
   | _ => pure ()
+  -- with acceptors blocked, newly opened streams must wake at least one of them
+  match opened with
+  | some (t, waiting) =>
+    if !(rets.any fun r => waiting.contains r.1) then
+      fails := fails ++ [("accept_some_wakeup", "-", s!"type {tName t}: acceptors {waiting} stay blocked although the peer opened a new stream")]
+  | none => pure ()
   -- callers that returned, then frames
   let (g1, f1) := monRets g rets
   g := g1; fails := fails ++ f1
@@ -433,14 +447,56 @@ def step (s : St) (op impl : String) : St × StepOut :=
         let (g', fails) := if s.hasGhost then monitor s.g w head [] [] else (s.g, [])
         ({ s1 with m := some m1, g := g' }, { model := res, tags := ["frame:panic-locked"], fails := fails })
       else
-        let (m2, rs, fs) := m1.quiesce FUEL
-        let rets := ev.rets ++ rs
-        let frames := ev.frames ++ fs
+        -- Several AcceptStream callers asleep on the same newStreamChan while a frame opens k new
+        -- streams: the runtime decides which of them receive the tokens sent by the creation loop
+        -- (a send hands over directly to a parked receiver, so up to k of them wake) and in which
+        -- order the woken ones take the mutex.  The model enumerates the schedules and follows the
+        -- one the implementation took (the monitors judge the outcome either way).  One call that
+        -- opens k streams is rendered as k successive single-stream calls (same effect on the map),
+        -- so that the receives can be placed between the sends.
+        let frameKind : Option (SID → MapOp) := match ops with
+          | [.recvFrame _] => some MapOp.recvFrame
+          | [.sendFrame _] => some MapOp.sendFrame
+          | _ => none
+        let tgt : STyp := match ops with
+          | [.recvFrame id] | [.sendFrame id] => typeOf id
+          | _ => .bidi
+        let i0 := m.inc tgt
+        let i1 := m1.inc tgt
+        let k := ((i1.nextOpen - i0.nextOpen) / 4).toNat
+        let sleepers := (i0.accs.filter (fun a => !a.ready)).map (·.aid)
+        let runFrom := fun (mm : Map) (pre : List MapOp) (rets0 : List (Nat × Ret)) (frames0 : List Frame) =>
+          let (ma, ra, fa) := pre.foldl (fun (acc : Map × List (Nat × Ret) × List Frame) o =>
+              let (m', e) := acc.1.step o
+              (m', acc.2.1 ++ e.rets, acc.2.2 ++ e.frames)) (mm, rets0, frames0)
+          let (mb, rs, fs) := ma.quiesce FUEL
+          (mb, ra ++ rs, fa ++ fs)
+        let cands : List (String × Map × List (Nat × Ret) × List Frame) :=
+          match frameKind with
+          | some mk =>
+            if k ≥ 1 && sleepers.length ≥ 2 && !i0.chanClosed then
+              let ids := (List.range k).map fun (j : Nat) => i0.nextOpen + 4 * (j : Int)
+              let wn := min k sleepers.length
+              let handoff := (selections sleepers wn).map fun sel =>
+                let sends := (ids.zipIdx).flatMap fun (id, j) =>
+                  [mk id] ++ (match sel[j]? with | some a => [MapOp.accRecv a] | none => [])
+                ("accept:handoff", runFrom m (sends ++ sel.map MapOp.accLocked) [] [])
+              let single := if wn ≥ 2 then sleepers.map fun a =>
+                  ("accept:single-slot", runFrom m1 [MapOp.accRecv a] ev.rets ev.frames) else []
+              handoff ++ single
+            else [("", runFrom m1 [] ev.rets ev.frames)]
+          | none => [("", runFrom m1 [] ev.rets ev.frames)]
+        let pick := match cands.find? (fun c => res ++ suffix c.2.1 c.2.2.1 c.2.2.2 == impl) with
+          | some c => c
+          | none => cands.headD ("", runFrom m1 [] ev.rets ev.frames)
+        let m2 := pick.2.1
+        let rets := pick.2.2.1
+        let frames := pick.2.2.2
         let model := res ++ suffix m2 rets frames
         -- branch tags
         let kind := w.headD "?"
         let resTag := if isNum res then "stream" else res
-        let tags := [s!"{kind}:{resTag}"] ++
+        let tags := [s!"{kind}:{resTag}"] ++ (if pick.1 == "" then [] else [pick.1]) ++
           (frames.map fun f => match f with | .maxStreams .. => "frame:MAX_STREAMS" | .streamsBlocked .. => "frame:STREAMS_BLOCKED") ++
           (rets.filterMap fun (_, r) => match r with
             | .stream _ => if kind == "opensync" || kind == "accept" || kind == "open" then none else some s!"woken-by:{kind}"
